@@ -52,7 +52,7 @@ static void pdy(const lp_dyadic_rational_t* d) { print_z(&d->a); printf(" %lu", 
 
 int main(void) {
   while (next_case()) {
-    alarm(10);   /* a case that does not finish within 10 s is reported as a crash of that case */
+    alarm(30);   /* a case that does not finish within 30 s is reported as a crash of that case */
     if (vntok < 3 || !is_op("c06")) { printf("UNKNOWN-OP"); end_case(); continue; }
     int nosturm = strcmp(vtok[vntok - 1], "nosturm") == 0;
     lp_upolynomial_t* f = parse_upoly(vtok[1]);
